@@ -1,0 +1,8 @@
+//go:build !verif
+// +build !verif
+
+package main
+
+// verifPoint marks a point of interest for the runtime-verification harness.
+// It does nothing unless the program is built with the "verif" tag.
+func verifPoint(string) {}
